@@ -85,6 +85,15 @@ Proof.
   apply inner_of_plains_all. cbn [forallb]. rewrite Hx. reflexivity.
 Qed.
 
+Fixpoint type_toks_ok (ty : list token) : bool :=
+  match ty with [] => true | t :: r => type_tok t && type_next_ok t r && type_toks_ok r end.
+Lemma type_seq_of_toks ty : type_toks_ok ty = true -> type_seq ty.
+Proof.
+  induction ty as [|t r IH]; intros H; [constructor|].
+  cbn [type_toks_ok] in H. apply andb_prop in H as [H H3]. apply andb_prop in H as [H1 H2].
+  apply tsq_tok; [exact H1 | exact H2 | apply IH; exact H3].
+Qed.
+
 Open Scope Z_scope.
 (* TypeScript:  exp function f ( a ) : T < U > { x ; } const g = async ( a ) => { y ; } *)
 Definition ts1 : list token :=
@@ -111,7 +120,7 @@ Proof.
   apply (io_func LTypeScript 0 [_] [_; _; _; _; _; _; _; _; _; _] 1 5 _ [_; _] _ _ [] [_]);
     [reflexivity | | reflexivity | reflexivity | | discriminate | ].
   - apply (fh_function_ret LTypeScript _ _ [_; _; _] _ [_; _; _; _]);
-      [reflexivity | reflexivity | reflexivity | | reflexivity | reflexivity].
+      [reflexivity | reflexivity | reflexivity | | reflexivity | apply type_seq_of_toks; reflexivity].
     apply (one_group _ [_] _); reflexivity.
   - apply (io_stmt LTypeScript _ [_; _] [] []); [apply one_stmt; reflexivity | constructor].
   - (* const g = async ( a ) => { y ; } *)
@@ -263,6 +272,47 @@ Proof.
   apply (canonical_of_flat LC c4 c4_ds); [reflexivity | apply c4_items; reflexivity].
 Qed.
 
+(* TypeScript return types with parenthesis groups (type_seq):
+   function f ( a ) : ( x : T ) => void { y ; }   m ( ) : Promise < ( e : E ) => void > { y ; } *)
+Definition ts5 : list token :=
+  toks [(0,s_function);(1,[102]);(2,[40]);(1,[97]);(2,[41]);(3,s_colon);
+        (2,[40]);(1,[120]);(3,s_colon);(1,[84]);(2,[41]);(2,s_arrow);(0,[118;111;105;100]);
+        (2,[123]);(1,[121]);(2,[59]);(2,[125]);
+        (1,[109]);(2,[40]);(2,[41]);(3,s_colon);
+        (1,[80;114;111;109;105;115;101]);(3,[60]);(2,[40]);(1,[101]);(3,s_colon);(1,[69]);(2,[41]);(2,s_arrow);(0,[118;111;105;100]);(3,[62]);
+        (2,[123]);(1,[121]);(2,[59]);(2,[125])]%Z.
+Definition ts5_ds : list fdesc := [mkFd 1 0 5 13 16; mkFd 17 17 20 31 34].
+
+Example ts5_canonical : canonical_program_of LTypeScript ts5 ts5_ds.
+Proof.
+  unfold canonical_program_of, ts5_ds.
+  let s := eval vm_compute in ts5 in change ts5 with s.
+  (* function f ( a ) : ( x : T ) => void { y ; } *)
+  apply (io_func LTypeScript 0 [] [_; _; _; _; _; _; _; _; _; _; _; _; _] 1 5 _ [_; _] _ _ [] [_]);
+    [reflexivity | | reflexivity | reflexivity | | discriminate | ].
+  - apply (fh_function_ret LTypeScript _ _ [_; _; _] _ [_; _; _; _; _; _; _]);
+      [reflexivity | reflexivity | reflexivity | apply (one_group _ [_] _); reflexivity | reflexivity | ].
+    apply (tsq_group _ [_; _; _] _ [_; _]);
+      [reflexivity | apply inner_of_plains_all; reflexivity | reflexivity | apply type_seq_of_toks; reflexivity].
+  - apply (io_stmt LTypeScript _ [_; _] [] []); [apply one_stmt; reflexivity | constructor].
+  - (* m ( ) : Promise < ( e : E ) => void > { y ; } *)
+    cbn [length Nat.add].
+    apply (io_func LTypeScript 17 [] [_; _; _; _; _; _; _; _; _; _; _; _; _; _] 0 3 _ [_; _] _ [] [] []);
+      [reflexivity | | reflexivity | reflexivity | | discriminate | constructor].
+    + apply (fh_method_ret LTypeScript _ [_; _] _ [_; _; _; _; _; _; _; _; _; _]);
+        [reflexivity | reflexivity | apply (one_group _ [] _); reflexivity | reflexivity | ].
+      apply tsq_tok; [reflexivity | reflexivity |]. apply tsq_tok; [reflexivity | reflexivity |].
+      apply (tsq_group _ [_; _; _] _ [_; _; _]);
+        [reflexivity | apply inner_of_plains_all; reflexivity | reflexivity | apply type_seq_of_toks; reflexivity].
+    + apply (io_stmt LTypeScript _ [_; _] [] []); [apply one_stmt; reflexivity | constructor].
+Qed.
+
+Example ts5_hypotheses : wf_descs ts5 ts5_ds /\ lexically_canonical_of LTypeScript ts5 ts5_ds.
+Proof.
+  split; [apply (canonical_of_wf LTypeScript) | apply (canonical_of_lexical LTypeScript)];
+    (discriminate || exact ts5_canonical).
+Qed.
+
 (* the hypotheses of the end-to-end theorem hold of the examples: by the theorems ... *)
 Example ts1_hypotheses : wf_descs ts1 ds1 /\ lexically_canonical_of LTypeScript ts1 ds1.
 Proof.
@@ -288,5 +338,6 @@ Example examples_checked :
   wf_descs_b java1 java1_ds = true /\ lexically_canonical_of_b LJava java1 java1_ds = true /\
   wf_descs_b js1 js1_ds = true /\ lexically_canonical_of_b LJavaScript js1 js1_ds = true /\
   wf_descs_b java3 java3_ds = true /\ lexically_canonical_of_b LJava java3 java3_ds = true /\
-  wf_descs_b c4 c4_ds = true /\ lexically_canonical_of_b LC c4 c4_ds = true.
+  wf_descs_b c4 c4_ds = true /\ lexically_canonical_of_b LC c4 c4_ds = true /\
+  wf_descs_b ts5 ts5_ds = true /\ lexically_canonical_of_b LTypeScript ts5 ts5_ds = true.
 Proof. vm_compute. repeat split; reflexivity. Qed.
